@@ -51,6 +51,7 @@ type Clause struct {
 }
 
 type Contract struct {
+	Sweep    bool // empty contract synthesised by 'govc sweep'
 	Synth        bool   // synthesised for an unlisted pure library function
 	Key          string // "pop" / "parseState.pop" / "strings.TrimSpace"
 	Assumed      bool
